@@ -89,6 +89,10 @@ func BuildSubject(scratch string, race bool) (string, error) {
 	out := filepath.Join(scratch, "wfrun")
 	args := []string{"build", "-tags", "verif"}
 	env := goEnv()
+	if os.Getenv("VERIF_COVER") != "" && !race {
+		// diagnostic mode (tools/coverage.sh): which statements of the library do the workloads execute at all?
+		args = append(args, "-cover", "-coverpkg=github.com/scipipe/scipipe/...")
+	}
 	if race {
 		out += "-race"
 		args = append(args, "-race")
@@ -273,6 +277,9 @@ func (c *Case) Run() *Result {
 		"VERIF_TRACE=" + tracePath, "VERIF_EVLOG=" + evPath, "VERIF_RVDIR=" + rvDir, "TMPDIR=" + meta}
 	if c.Behav != nil {
 		env = append(env, "VERIF_BEHAV="+behavPath)
+	}
+	if cd := os.Getenv("VERIF_COVER"); cd != "" {
+		env = append(env, "GOCOVERDIR="+cd)
 	}
 	keys := []string{}
 	for k := range c.Env {
